@@ -124,7 +124,24 @@ impl Controller for FormMultipartEnctypePostMethodController {
                 return response;
             }
             let content_disposition = boxed_content_disposition.unwrap();
-            let formatted_output = format!("{} is {} {}", content_disposition.field_name.unwrap(), String::from_utf8(part.body.clone()).unwrap(), SYMBOL.new_line_carriage_return);
+            let boxed_part_value = String::from_utf8(part.body.clone());
+            if content_disposition.field_name.is_none() || boxed_part_value.is_err() {
+                response.status_code = *STATUS_CODE_REASON_PHRASE.n400_bad_request.status_code;
+                response.reason_phrase = STATUS_CODE_REASON_PHRASE.n400_bad_request.reason_phrase.to_string();
+
+                let message = "each part in the request body has to have a field name and a UTF-8 encoded value";
+                response.content_range_list = vec![
+                    ContentRange{
+                        unit: Range::BYTES.to_string(),
+                        range: Range { start: 0, end: message.len() as u64 },
+                        size: message.len().to_string(),
+                        body: Vec::from(message.as_bytes()),
+                        content_type: MimeType::TEXT_PLAIN.to_string(),
+                    }
+                ];
+                return response;
+            }
+            let formatted_output = format!("{} is {} {}", content_disposition.field_name.unwrap(), boxed_part_value.unwrap(), SYMBOL.new_line_carriage_return);
             formatted_list.push(formatted_output);
         }
 
@@ -258,7 +275,24 @@ impl FormMultipartEnctypePostMethodController {
                 return response;
             }
             let content_disposition = boxed_content_disposition.unwrap();
-            let formatted_output = format!("{} is {} {}", content_disposition.field_name.unwrap(), String::from_utf8(part.body.clone()).unwrap(), SYMBOL.new_line_carriage_return);
+            let boxed_part_value = String::from_utf8(part.body.clone());
+            if content_disposition.field_name.is_none() || boxed_part_value.is_err() {
+                response.status_code = *STATUS_CODE_REASON_PHRASE.n400_bad_request.status_code;
+                response.reason_phrase = STATUS_CODE_REASON_PHRASE.n400_bad_request.reason_phrase.to_string();
+
+                let message = "each part in the request body has to have a field name and a UTF-8 encoded value";
+                response.content_range_list = vec![
+                    ContentRange{
+                        unit: Range::BYTES.to_string(),
+                        range: Range { start: 0, end: message.len() as u64 },
+                        size: message.len().to_string(),
+                        body: Vec::from(message.as_bytes()),
+                        content_type: MimeType::TEXT_PLAIN.to_string(),
+                    }
+                ];
+                return response;
+            }
+            let formatted_output = format!("{} is {} {}", content_disposition.field_name.unwrap(), boxed_part_value.unwrap(), SYMBOL.new_line_carriage_return);
             formatted_list.push(formatted_output);
         }
 
